@@ -154,5 +154,24 @@ def simplify(case):
         yield c
 
 
+def deep_cases():
+    """Histories built to grow very deep trees (strictly increasing rewards keep the newest cell the most optimistic)."""
+    ramp = {"law": "ramp", "seed": 1, "params": {"s": 1.0}}
+    dom = [[0.0, 1.0]]
+    out = []
+    for aspec, ps, T in (
+        ({"name": "T_HOO", "params": {"nu": 10.0, "rho": 0.99, "rounds": 2000}}, {"cls": "BinaryPartition"}, 1100),
+        ({"name": "T_HOO", "params": {"nu": 5.0, "rho": 0.995, "rounds": 3000}}, {"cls": "KaryPartition", "K": 3}, 1200),
+        ({"name": "HCT", "params": {"nu": 10.0, "rho": 0.99, "c": 0.01, "delta": 0.01}, "n": 1200}, {"cls": "BinaryPartition"}, 1200),
+        ({"name": "VHCT", "params": {"nu": 10.0, "rho": 0.99, "c": 0.01, "delta": 0.01, "bound": 0.1}, "n": 1200}, {"cls": "BinaryPartition"}, 1200),
+        ({"name": "DOO", "params": {"n": 1500}}, {"cls": "BinaryPartition"}, 1500),
+        ({"name": "Zooming", "params": {"nu": 50.0, "rho": 0.995}, "n": 1200}, {"cls": "BinaryPartition"}, 1200),
+        ({"name": "POO", "base": "T_HOO", "params": {"numax": 10.0, "rhomax": 0.995, "rounds": 1500}}, {"cls": "BinaryPartition"}, 1500),
+    ):
+        out.append({"algo": aspec, "partition": ps, "domain": dom, "rng": {"mode": "seed", "seed": 0}, "T": T, "reward": ramp})
+    return out
+
+
 def run_shard(ctx):
+    ctx.enumerate("deep", deep_cases(), check_case)
     ctx.drive("loop", cases(ctx.tier), check_case, ctx.budget(6000, 60000))
